@@ -715,7 +715,46 @@ func c01LaneH1(t *testing.T, s *c01Sess, profile string, n int) {
 			}
 		}
 		s.Case(c01H1Line("c01h1", tc, reads), ans, ok, "", nontriv, human)
+		// tie of the Lean ORIGIN (the parser h1_fidelity is stated about) to a real server parser:
+		// on the bytes the real writer produced + a pipelined tail, net/http.ReadRequest and
+		// parseRequestH1 must read the same request and leave the same tail
+		if nontriv && len(wire) <= 6000 {
+			tail := verifh.Pick(r, []string{"", "GET /next HTTP/1.1\r\nHost: n\r\n\r\n", "\r\n", "garbage", "0\r\n\r\n"})
+			full := append(append([]byte(nil), wire...), tail...)
+			if oans, ok2 := c01GoOrigin(full); ok2 {
+				s.Count("origin-tie")
+				s.Case("c01origin "+verifh.Hex(string(full)), oans, true, "", false, "origin tie: "+human)
+			}
+		}
 	}
+}
+
+// c01GoOrigin renders what net/http.ReadRequest reads from a byte stream in the canonical form of
+// the Lean driver's `c01origin` lane.
+func c01GoOrigin(full []byte) (string, bool) {
+	br := bufio.NewReader(bytes.NewReader(full))
+	got, err := http.ReadRequest(br)
+	if err != nil {
+		return "", false
+	}
+	body, err := io.ReadAll(got.Body)
+	if err != nil {
+		return "", false
+	}
+	rest, _ := io.ReadAll(br)
+	var lines []string
+	for k, vs := range got.Header {
+		lk := strings.ToLower(k)
+		if lk == "content-length" || lk == "transfer-encoding" || lk == "host" {
+			continue
+		}
+		for _, v := range vs {
+			lines = append(lines, lk+": "+v)
+		}
+	}
+	sort.Strings(lines)
+	return fmt.Sprintf("ok %s %s %s %s %s %d", verifh.Hex(got.Method), verifh.Hex(got.RequestURI), verifh.HexList([]string{got.Host}),
+		verifh.HexList(lines), c01Blob(body), len(rest)), true
 }
 
 // TestVerif_C01_h1write: the real persistConn.writeRequest + transferWriter + chunkedWriter into a
@@ -724,7 +763,7 @@ func TestVerif_C01_h1write(t *testing.T) {
 	s := c01New(t, "C01", "h1write",
 		"http.Request values as Client.roundTrip builds them and beyond: methods (standard, extension tokens, empty, invalid), URLs (ports, IPv6+zone, escapes, non-ASCII, '*', opaque, empty path, CONNECT), Host override (valid/invalid/injection), 0..8 header keys (canonical, non-canonical, names the writer handles itself, invalid names, multi/zero values, values with OWS, CR/LF/NUL), body nil / in-memory / scripted reader with Content-Length equal, unknown (0,-1) or wrong, sizes around 0,1,4 KiB,16 KiB,32 KiB,64 KiB and 1 MiB, read scripts incl. zero-length reads, Request.Close, extra headers, proxy form, bufio or plain writer; a fifth of the cases in header-order mode; non-trivial = origin oracle applied")
 	s.OracleIndependent = false
-	c01LaneH1(t, s, "plain", verifh.N(2500, 60000))
+	c01LaneH1(t, s, "plain", verifh.N(5000, 60000))
 	s.Need(t, "plain-mode", "order-mode", "chunked", "content-length", "no-body", "oracle-applied", "err:bodylen", "err:clnil", "err:ctl")
 	s.Finish()
 }
@@ -735,7 +774,7 @@ func TestVerif_C01_h1write(t *testing.T) {
 func TestVerif_C16_h1wire(t *testing.T) {
 	s := c01New(t, "C16", "h1wire",
 		"as C01/h1write but 0..60 header keys (around the 12-element boundary of the old sort in a quarter of the cases), a __header_order__ list in 7 of 8 cases (subset / superset with absent names / other case / duplicated / full, shuffled), canonical and non-canonical spellings of one name, bookkeeping keys present; compared: request line, multiset of header lines, listed names in wire order, body; oracle: net/http.ReadRequest sees every caller value once, no bookkeeping key, listed headers in list order; non-trivial = oracle applied")
-	c01LaneH1(t, s, "order", verifh.N(2500, 60000))
+	c01LaneH1(t, s, "order", verifh.N(4000, 60000))
 	s.Need(t, "order-mode", "plain-mode", "oracle-applied", "chunked", "content-length")
 	s.Finish()
 }
